@@ -4,9 +4,9 @@ import Gp.Model.PoolBase
 
   Modelled source: reassembly/memory.go StreamPool.getConnection (double-checked insert, the
   `panic("FIXME: other dir added in the meantime...")`), getHalf, newConnection (+grow), remove,
-  connections; reassembly/tcpassembly.go connection.reset, AssembleWithContext (locking, Accept,
+  connections; reassembly/tcpassembly.go connection.reset, AssembleWithContext (locking, lastSeen, Accept,
   half.closed test, lifecycle part of the body), sendToConnection (End ⇒ closeHalfConnection),
-  closeHalfConnection, skipFlush, FlushAll.
+  closeHalfConnection, skipFlush, FlushAll, FlushWithOptions / FlushCloseOlderThan, flushClose.
 
   Differences from the classic package that matter here:
   * one map entry per connection, stored under the key of the direction that created it; the other
@@ -14,13 +14,18 @@ import Gp.Model.PoolBase
   * there is no retry loop: after `conn.mu.Lock()` only `half.closed` is tested (packet dropped);
   * both halves share one Stream; ReassemblyComplete runs when BOTH halves are closed, and the
     connection is removed only if it returns true (the scripted stream returns true);
-  * `remove` deletes `conns[conn.key]` only `if _, ok := conns[conn.key]; ok`.
+  * `remove` deletes `conns[conn.key]` only `if _, ok := conns[conn.key]; ok` — it tests that SOME entry
+    is stored under the key, not that the entry is this connection;
+  * FlushWithOptions has no `closed` early-out per connection (flushClose tests `half.closed`), and when
+    both halves are closed and older than TC it calls `remove(conn)` a second time AFTER
+    `conn.mu.Unlock()` (pc `rm2`: a scheduling point at which the goroutine holds no lock).
 
   `fixed = true` models the tree with proposed_fixes/pool-1 applied (the double-check returns the
   connection found through the reversed key instead of panicking); `fixed = false` is the code as
-  written upstream.  Scheduling points and segments as in PoolAsm.lean.  Every packet the adapter
-  sends carries SYN (seq 1000, no payload), so nothing is ever queued and every packet accepted on
-  an open half produces exactly one ReassembledSG callback.
+  written upstream.  Scheduling points and segments as in PoolAsm.lean.  Packets: `syn`, `fin` carry SYN
+  (seq 1000, no payload): accepted on an open half they produce exactly one ReassembledSG callback;
+  `late ts` (FIN, seq 1101, 4 bytes) is always queued: each half has at most one queued page (a second
+  `late` overlaps the first exactly: checkOverlap case 3 drops the old page), released by Flush*.
 -/
 namespace Gp.Pool.Reasm
 open Gp.Pool
@@ -31,18 +36,33 @@ structure Conn where
   stream    : Option SId := none
   c2sClosed : Bool := false
   s2cClosed : Bool := false
+  c2sQ      : Option Nat := none    -- timestamp of the queued (out-of-order) page of the half, if any
+  s2cQ      : Option Nat := none
+  c2sSeen   : Nat := 0              -- half.lastSeen
+  s2cSeen   : Nat := 0
   mu        : Option Tid := none
   deriving DecidableEq, Repr, Inhabited
 
 def Conn.halfClosed (o : Conn) (h : Bool) : Bool := if h then o.s2cClosed else o.c2sClosed
-def Conn.closeHalf (o : Conn) (h : Bool) : Conn := if h then { o with s2cClosed := true } else { o with c2sClosed := true }
+def Conn.halfQ (o : Conn) (h : Bool) : Option Nat := if h then o.s2cQ else o.c2sQ
+def Conn.setQ (o : Conn) (h : Bool) (q : Option Nat) : Conn := if h then { o with s2cQ := q } else { o with c2sQ := q }
+/-- `if half.lastSeen.Before(timestamp) { half.lastSeen = timestamp }` -/
+def Conn.see (o : Conn) (h : Bool) (ts : Nat) : Conn :=
+  if h then { o with s2cSeen := max o.s2cSeen ts } else { o with c2sSeen := max o.c2sSeen ts }
+/-- `conn.lastSeen()` -/
+def Conn.lastSeen (o : Conn) : Nat := max o.c2sSeen o.s2cSeen
+/-- closeHalfConnection: `half.closed = true`, the queued pages are released (`first, last = nil, nil`). -/
+def Conn.closeHalf (o : Conn) (h : Bool) : Conn :=
+  if h then { o with s2cClosed := true, s2cQ := none } else { o with c2sClosed := true, c2sQ := none }
+def Conn.bothClosed (o : Conn) : Bool := o.c2sClosed && o.s2cClosed
 
 inductive PC where
   | start
   | ins (sid : SId)
   | lock (c : CId) (h : Bool)        -- h: the `half` pointer is &c.s2c (found through the reversed key)
   | cb (c : CId) (h : Bool) (fin : Bool)
-  | rm (c : CId)
+  | rm (c : CId) (cont : List Bool)  -- remove nested in c.mu (closeHalfConnection); Flush*: halves still to visit
+  | rm2 (c : CId)                    -- FlushWithOptions: remove AFTER c.mu.Unlock()
   | panicked
   deriving DecidableEq, Repr, Inhabited
 
@@ -100,6 +120,10 @@ def stepStart (s : State) (t : Tid) : Option State :=
     match s.conns.vals with
     | [] => some (finishOp s t)
     | c :: rest => some (setThr s t { th with pc := .lock c false, snap := some rest })
+  | .flushold _ _ :: _ =>
+    match s.conns.vals with
+    | [] => some (finishOp s t)
+    | c :: rest => some (setThr s t { th with pc := .lock c false, snap := some rest })
   | .pkt k _ :: _ =>
     match getHalf s.conns k with
     | some (c, h) => some (setThr s t { th with pc := .lock c h })
@@ -113,13 +137,14 @@ def stepStart (s : State) (t : Tid) : Option State :=
 def stepIns (fixed : Bool) (s : State) (t : Tid) (sid : SId) : Option State :=
   let th := s.thr t
   match th.prog with
-  | .pkt k _ :: _ =>
+  | .pkt k kind :: _ =>
     let c := match s.free with | [] => s.nextC | c :: _ => c
     let s1 : State := match s.free with
       | [] => { s with nextC := s.nextC + 1 }
       | _ :: f => { s with free := f }
     let o := s1.obj c
-    let s2 := setObj s1 c { o with key := k, stream := some sid, c2sClosed := false, s2cClosed := false }
+    let s2 := setObj s1 c { o with key := k, stream := some sid, c2sClosed := false, s2cClosed := false,
+                                   c2sQ := none, s2cQ := none, c2sSeen := kind.ts, s2cSeen := kind.ts }
     match getHalf s2.conns k with
     | some (c2, h2) =>
       if !fixed && (s2.obj c2).key != k then some (doPanic s2 t)
@@ -127,17 +152,87 @@ def stepIns (fixed : Bool) (s : State) (t : Tid) (sid : SId) : Option State :=
     | none => some (setThr { s2 with conns := s2.conns.set k c, kept := upd s2.kept sid true } t { th with pc := .lock c false })
   | _ => none
 
-/-- closeHalfConnection after `half.closed = true`: when both halves are closed,
-    ReassemblyComplete (returns true) and → Y4 (remove); otherwise Unlock. -/
+/-- Which Flush* call the head of the program is. -/
+inductive FMode where
+  | all                      -- FlushAll
+  | old (T TC : Nat)         -- FlushWithOptions{T, TC}
+  deriving DecidableEq, Repr, Inhabited
+
+def fmode : List Op → FMode
+  | .flushold T TC :: _ => .old T TC
+  | _ => .all
+
+/-- End of the visit of connection `c` by a Flush* call (`t` owns c.mu).  FlushAll: Unlock.
+    FlushWithOptions: `if s2c.closed && c2s.closed && s2c.lastSeen.Before(TC) && c2s.lastSeen.Before(TC)
+    {remove = true}`; Unlock; `if remove { pool.remove(conn) }` → scheduling point `rm2`. -/
+def flushEnd (s : State) (t : Tid) (c : CId) : State :=
+  let o := s.obj c
+  let s1 := setObj s c { o with mu := none }
+  match fmode (s.thr t).prog with
+  | .all => advance s1 t
+  | .old _ TC =>
+    if o.bothClosed && decide (o.s2cSeen < TC) && decide (o.c2sSeen < TC) then
+      setThr s1 t { s.thr t with pc := .rm2 c }
+    else advance s1 t
+
+/-- closeHalfConnection after `half.closed = true` inside AssembleWithContext: when both halves are
+    closed, ReassemblyComplete (returns true) and → Y4 (remove); otherwise (deferred) Unlock. -/
 def afterCloseHalf (s : State) (t : Tid) (c : CId) : State :=
   let o := s.obj c
-  if o.c2sClosed && o.s2cClosed then
+  if o.bothClosed then
     match o.stream with
-    | none =>
-      -- nil stream: nil dereference; AssembleWithContext unlocks c.mu by `defer`, FlushAll does not
-      if (s.thr t).snap.isSome then doPanic s t else doPanic (setObj s c { o with mu := none }) t
-    | some sid => setThr (addLog s (.complete sid t)) t { s.thr t with pc := .rm c }
+    | none => doPanic (setObj s c { o with mu := none }) t   -- nil stream; c.mu released by `defer`
+    | some sid => setThr (addLog s (.complete sid t)) t { s.thr t with pc := .rm c [] }
   else advance (setObj s c { o with mu := none }) t
+
+/-- A Flush* call visits the halves `hs` of connection `c` (`t` owns c.mu); the loop is
+    `for _, half := range []*halfconnection{&conn.s2c, &conn.c2s}`.
+    FlushAll:          `for !half.closed { skipFlush }`
+    FlushWithOptions:  flushClose: `if half.closed {return}`;
+                       `for half.first != nil && half.first.seen.Before(T) { skipFlush; if half.closed {return} }`;
+                       `if !half.closed && half.first == nil && conn.lastSeen().Before(TC) { closeHalfConnection }`.
+    skipFlush with a queued page: one ReassembledSG callback (→ pc `cb`, the visit continues in stepCb);
+    without: closeHalfConnection, and when both halves are closed ReassemblyComplete + nested remove
+    (→ pc `rm`, which records the halves the loop has still to look at when remove returns: FlushAll
+    re-tests `!half.closed` of the SAME half — it is closed unless the object was reset meanwhile —,
+    flushClose returns after an idle close). -/
+def wantDeliver (m : FMode) (o : Conn) (h : Bool) : Bool :=
+  match o.halfQ h, m with
+  | some _, .all => true
+  | some ts, .old T _ => decide (ts < T)
+  | none, _ => false
+
+def wantClose (m : FMode) (o : Conn) (h : Bool) : Bool :=
+  match m with
+  | .all => true
+  | .old _ TC => (o.halfQ h).isNone && decide (o.lastSeen < TC)
+
+def rmCont (m : FMode) (h : Bool) (hs : List Bool) : List Bool :=
+  match m with
+  | .all => h :: hs
+  | .old _ _ => hs
+
+def flushHalves (s : State) (t : Tid) (c : CId) : List Bool → State
+  | [] => flushEnd s t c
+  | h :: hs =>
+    let th := s.thr t
+    let o := s.obj c
+    let m := fmode th.prog
+    if o.halfClosed h then flushHalves s t c hs
+    else if wantDeliver m o h then
+      match o.stream with
+      | none => doPanic s t                -- nil stream; Flush* does not defer the Unlock
+      | some sid =>
+        setThr (addLog (setObj s c (o.setQ h none)) (.fdeliv sid t th.pos 1)) t { th with pc := .cb c h true }
+    else if wantClose m o h then
+      let o1 := o.closeHalf h
+      if o1.bothClosed then
+        match o.stream with
+        | none => doPanic s t
+        | some sid =>
+          setThr (addLog (setObj s c o1) (.complete sid t)) t { th with pc := .rm c (rmCont m h hs) }
+      else flushHalves (setObj s c o1) t c hs
+    else flushHalves s t c hs
 
 /-- Y3/A4. -/
 def stepLock (s : State) (t : Tid) (c : CId) (h : Bool) : Option State :=
@@ -146,33 +241,58 @@ def stepLock (s : State) (t : Tid) (c : CId) (h : Bool) : Option State :=
   if o.mu.isSome then none else
   match th.snap, th.prog with
   | some _, _ =>
-    -- FlushAll: for half in {s2c, c2s}: for !half.closed { skipFlush → closeHalfConnection }
-    if o.c2sClosed && o.s2cClosed then some (advance s t)
-    else some (afterCloseHalf (setObj s c { o with mu := some t, c2sClosed := true, s2cClosed := true }) t c)
+    -- FlushAll / FlushWithOptions: conn.mu.Lock(); both halves, s2c first
+    some (flushHalves (setObj s c { o with mu := some t }) t c [true, false])
   | none, .pkt k kind :: _ =>
     match o.stream with
     | none => some (doPanic s t)     -- half.stream.Accept on a nil stream; c.mu released by `defer`
     | some sid =>
-      let s1 := addLog s (.accept sid t th.pos)
+      let o := o.see h kind.ts                                            -- half.lastSeen
+      let s1 := addLog (setObj s c o) (.accept sid t th.pos)
       if o.halfClosed h then some (advance s1 t)                         -- "got packet on closed half"; deferred Unlock
       else
-        some (setThr (addLog (setObj s1 c { o with mu := some t }) (.deliv sid t th.pos k 1))
-                t { th with pc := .cb c h (kind != .syn) })
+        match kind with
+        | .late ts =>
+          -- out of order: queued (replacing the page already queued for the same bytes); no callback
+          some (advance (addLog (setObj s1 c (o.setQ h (some ts))) (.queue sid t th.pos k)) t)
+        | _ =>
+          some (setThr (addLog (setObj s1 c { o with mu := some t }) (.deliv sid t th.pos k 1))
+                  t { th with pc := .cb c h (kind != .syn) })
   | none, _ => none
 
-/-- Return from ReassembledSG: `if end { closeHalfConnection }`; deferred c.mu.Unlock. -/
+/-- Return from ReassembledSG.  AssembleWithContext: `if end { closeHalfConnection }`; deferred c.mu.Unlock.
+    Flush*: the page carried FIN: closeHalfConnection(half); both closed ⇒ ReassemblyComplete + nested
+    remove; else on to the next half (`h = true` is s2c, the first of the two). -/
 def stepCb (s : State) (t : Tid) (c : CId) (h : Bool) (fin : Bool) : Option State :=
   let o := s.obj c
-  if fin then some (afterCloseHalf (setObj s c (o.closeHalf h)) t c)
+  if (s.thr t).snap.isSome then
+    let o1 := o.closeHalf h
+    if o1.bothClosed then
+      match o.stream with
+      | none => some (doPanic s t)
+      | some sid =>
+        -- when remove returns, skipFlush returns into the loop of the same half
+        some (setThr (addLog (setObj s c o1) (.complete sid t)) t { s.thr t with pc := .rm c (h :: (if h then [false] else [])) })
+    else some (flushHalves (setObj s c o1) t c (if h then [false] else []))
+  else if fin then some (afterCloseHalf (setObj s c (o.closeHalf h)) t c)
   else some (advance (setObj s c { o with mu := none }) t)
 
-/-- Y4/A5: pool.Lock; `if _, ok := conns[conn.key]; ok { delete; free = append(free, conn) }`; Unlock; c.mu.Unlock. -/
-def stepRm (s : State) (t : Tid) (c : CId) : Option State :=
-  let o := s.obj c
-  let s1 : State := match s.conns.get o.key with
-    | some _ => { s with conns := s.conns.del o.key, free := c :: s.free }
-    | none => s
-  some (advance (setObj s1 c { o with mu := none }) t)
+/-- memory.go remove: pool.Lock; `if _, ok := conns[conn.key]; ok { delete; free = append(free, conn) }`; Unlock. -/
+def doRemove (s : State) (c : CId) : State :=
+  match s.conns.get (s.obj c).key with
+  | some _ => { s with conns := s.conns.del (s.obj c).key, free := c :: s.free }
+  | none => s
+
+/-- Y4/A5: remove nested in c.mu (from closeHalfConnection).  AssembleWithContext: deferred c.mu.Unlock.
+    Flush*: back in the loop over the halves. -/
+def stepRm (s : State) (t : Tid) (c : CId) (cont : List Bool) : Option State :=
+  let s1 := doRemove s c
+  if (s.thr t).snap.isSome then some (flushHalves s1 t c cont)
+  else some (advance (setObj s1 c { s1.obj c with mu := none }) t)
+
+/-- FlushWithOptions: `remove(conn)` after `conn.mu.Unlock()`; then the next connection of the snapshot. -/
+def stepRm2 (s : State) (t : Tid) (c : CId) : Option State :=
+  some (advance (doRemove s c) t)
 
 def step (fixed : Bool) (s : State) (t : Tid) : Option State :=
   match (s.thr t).pc with
@@ -180,7 +300,8 @@ def step (fixed : Bool) (s : State) (t : Tid) : Option State :=
   | .ins sid => stepIns fixed s t sid
   | .lock c h => stepLock s t c h
   | .cb c h fin => stepCb s t c h fin
-  | .rm c => stepRm s t c
+  | .rm c cont => stepRm s t c cont
+  | .rm2 c => stepRm2 s t c
   | .panicked => none
 
 def sys (fixed : Bool) (progs : Tid → List Op) : Sys State := { init := init progs, step := step fixed }
